@@ -20,6 +20,7 @@ import (
 	"os"
 	"path/filepath"
 	"sort"
+	"strings"
 	"sync"
 
 	"github.com/notaryproject/notation-go/dir"
@@ -63,6 +64,7 @@ func main() {
 	twinParent := lib.Mint(nil, lib.CertSpec{CN: "c13-twin", Kind: "ca", KeyIdx: 3})
 	selfIssuedOnly := lib.Mint(twinParent, lib.CertSpec{CN: "c13-twin", Kind: "ca", KeyIdx: 4})           // issuer name == subject, signed by another key
 	leafSelfIssuedOnly := lib.Mint(twinParent, lib.CertSpec{CN: "c13-twin", Kind: "codesign", KeyIdx: 5}) // NOT a CA; issuer name == subject name, but signed by another key: not self-signed
+	leafCertSign := lib.Mint(inter, lib.CertSpec{CN: "c13-leaf-with-certsign-usage", Kind: "leaf-certsign", KeyIdx: 2})
 	rsaRoot := lib.Mint(nil, lib.CertSpec{CN: "c13-rsa-root", Kind: "ca", KeySpec: "RSA-2048", KeyIdx: 0})
 	decoy := lib.Mint(nil, lib.CertSpec{CN: "c13-decoy", Kind: "ca", KeyIdx: 2})
 	kinds := map[string]certKind{
@@ -70,6 +72,7 @@ func main() {
 		"inter": {"inter", inter, true, false}, "leaf": {"leaf", leaf, false, false},
 		"selfLeaf": {"selfLeaf", selfLeaf, true, false}, "selfIssuedOnly": {"selfIssuedOnly", selfIssuedOnly, true, false},
 		"leafSelfIssuedOnly": {"leafSelfIssuedOnly", leafSelfIssuedOnly, false, false},
+		"leafCertSign":       {"leafCertSign", leafCertSign, false, false},
 	}
 	if !bytes.Equal(leafSelfIssuedOnly.Cert.RawIssuer, leafSelfIssuedOnly.Cert.RawSubject) || leafSelfIssuedOnly.Cert.IsCA {
 		panic("harness bug: leafSelfIssuedOnly is not what it says")
@@ -82,7 +85,7 @@ func main() {
 		kinds["leafUnverifiableAlg"] = certKind{"leafUnverifiableAlg", &lib.Ent{Cert: odd}, false, false}
 	}
 	goodCA := []string{"root", "root2", "rsaRoot"}
-	allKinds := []string{"root", "root2", "rsaRoot", "inter", "leaf", "selfLeaf", "selfIssuedOnly", "leafSelfIssuedOnly", "leafSelfIssuedOnly"}
+	allKinds := []string{"root", "root2", "rsaRoot", "inter", "leaf", "selfLeaf", "selfIssuedOnly", "leafSelfIssuedOnly", "leafSelfIssuedOnly", "leafCertSign", "leafCertSign"}
 	// a CA certificate signed with its OWN key whose issuer NAME is another one: the signature checks out against itself,
 	// but it is not a self-signed root (issuer != subject) - fine for ca / signingAuthority stores, not for tsa stores
 	{
@@ -107,7 +110,7 @@ func main() {
 	types := []struct {
 		s     string
 		valid bool
-	}{{"ca", true}, {"signingAuthority", true}, {"tsa", true}, {"CA", false}, {"", false}, {"x509", false}, {"signingauthority", false}, {"tsa/..", false}}
+	}{{"ca", true}, {"signingAuthority", true}, {"tsa", true}, {"CA", false}, {"", false}, {"x509", false}, {"signingauthority", false}, {"tsa/..", false}, {"TSA", false}, {"Tsa", false}, {"SigningAuthority", false}}
 	type nm struct {
 		s      string
 		valid  bool
@@ -115,6 +118,7 @@ func main() {
 	}
 	names := []nm{{"s", true, true}, {"store-1", true, true}, {"s.t-o_r", true, true}, {".hidden", true, true}, {"A_b.crt", true, true},
 		{".", false, true}, {"..", false, true}, {"", false, true}, {"a/b", false, true}, {"a\\b", false, true}, {"../s", false, true}, {"s/..", false, true}, {"/abs", false, true}, {"s/", false, true},
+		{"\u212aelvin.Store_1", false, true}, {"\u017ftore", false, true}, {"st\u00f6re", false, true}, // (KELVIN SIGN, LONG S: they fold to k and s; a plain name is ASCII letters, digits, _ . -)
 		{"...", true, false}}
 
 	n := r.N(10000, 300000)
@@ -164,7 +168,7 @@ func main() {
 			want = t.valid && nmv.valid
 			if !want {
 				// make the path the name would lexically resolve to loadable, so that a weakened check is visible
-				if t.valid {
+				if t.valid || (t.s != "" && !strings.ContainsAny(t.s, "/\\.")) { // also for a type spelled in another case: a directory spelled exactly that way
 					p := filepath.Join(x509dir, t.s, nmv.s)
 					if rel, err := filepath.Rel(base, p); err == nil && len(rel) > 0 && rel[0] != '.' {
 						if os.MkdirAll(p, 0o755) == nil {
